@@ -165,6 +165,9 @@ func raceChild(args []string) {
 			}
 			mu.Unlock()
 		}
+		if !final {
+			dirtyPool()
+		}
 		qpr, err := searcher.SearchDocs(context.Background(), fm.GetAllFracs(), params)
 		if err != nil {
 			add("search-error", fmt.Sprintf("query %s: %v", raceQueries[qi], err))
@@ -188,6 +191,8 @@ func raceChild(args []string) {
 				add("search-unknown-id", fmt.Sprintf("query %s returned %v", raceQueries[qi], x.ID))
 			case d.mid < from || d.mid > to:
 				add("search-out-of-range", fmt.Sprintf("query %s [%d,%d] returned %s", raceQueries[qi], from, to, d.idStr()))
+			case !q.sat(d) && !q.hasNot():
+				add("search-foreign-id", fmt.Sprintf("negation-free query %s returned %s with tokens %v", raceQueries[qi], d.idStr(), d.toks))
 			case !q.sat(d):
 				add("search-result-violates-query", fmt.Sprintf("query %s returned %s with tokens %v", raceQueries[qi], d.idStr(), d.toks))
 			default:
